@@ -337,9 +337,11 @@ BASE = [
     'set "M" begin hue 10 stage row 0 1 column 1 stage row 2 end set "Z" zone 0 3',
     'printf "{} {hue}" 1 println "x # y" print { ( 1 + 2 ) * 3 ^ 2 % 5 - -4 / 2 }',
     'assign a 1 assign b { a != 2 } assign c { a <= 2 or a == 3 } hue { -a }',
+    # time patterns next to brackets and comments
+    'define w with t u begin on all end [ w 12:30 2 ] [ w 3 1*:30 ] time at 8:00 or *:15 on all',
 ]
 OPCHARS = set('[]{}()+-*/^%<>=!')
-SEPS = [' ', '\t', '\n', '  \n\t ', ' # a comment end begin {\n', '']
+SEPS = [' ', '\t', '\n', '  \n\t ', ' # a comment end begin {\n', '# a comment right behind the token\n', '']
 
 
 def lexemes(text):
